@@ -522,6 +522,11 @@ public:
   /// \returns false if the build database could not be attached.
   bool attachDB(std::unique_ptr<BuildDB> database, std::string* error_out);
 
+#ifdef LLBUILD_VERIF
+  /// Verification only: append a canonical dump of the engine state to \arg out.
+  void verifDumpState(std::string& out);
+#endif
+
   /// Enable tracing into the given output file.
   ///
   /// \returns True on success.
@@ -535,6 +540,24 @@ public:
   /// The maximum allowed input ID.
   static const uintptr_t kMaximumInputID = ~(uintptr_t)0xFF;
 };
+
+#ifdef LLBUILD_VERIF
+/// Verification hooks: notification points of the engine's work loop. The
+/// installed function is called on the engine thread with no engine lock held.
+namespace verif {
+enum class Point {
+  /// Top of every iteration of the work loop, before the cancellation test.
+  LoopTop = 0,
+  /// The engine did no work, has outstanding tasks and is about to block.
+  BeforeWait = 1,
+  /// The cancellation drain found no reported completion and is about to block.
+  CancelDrainWait = 2
+};
+typedef void (*PointHookFn)(void* context, Point point);
+extern PointHookFn pointHook;
+extern void* pointHookContext;
+}
+#endif
 
 }
 }
